@@ -412,10 +412,11 @@ def sortBy {α : Type} (le : α → α → Bool) (l : List α) : List α := l.fo
 /-- split into maximal runs of neighbours related by `same` (each element is compared with its predecessor) -/
 def runs {α : Type} (same : α → α → Bool) : List α → List (List α)
   | [] => []
-  | x :: xs =>
-    match xs, runs same xs with
-    | y :: _, r :: rs => if same x y then (x :: r) :: rs else [x] :: r :: rs
-    | _, rs => [x] :: rs
+  | [x] => [[x]]
+  | x :: y :: ys =>
+    match runs same (y :: ys) with
+    | r :: rs => if same x y then (x :: r) :: rs else [x] :: r :: rs
+    | [] => [[x]]
 
 def posLe (a b : Info) : Bool := decide (a.line < b.line ∨ (a.line = b.line ∧ a.column ≤ b.column))
 
